@@ -41,6 +41,7 @@ type Options struct {
 	MaxSteps  int       // horizon on scheduling steps (default 200000)
 	MaxRand   int       // budget of RNG answers per execution (0 = unlimited); exceeding it aborts with BudgetExceeded
 	CatchExit bool      // os.Exit becomes an ExitPanic
+	FnPoints  bool      // function entries are scheduling points (needs an overlay generated with -fnpoints)
 }
 
 const (
